@@ -287,8 +287,6 @@ def session_scripts(a, b, total, c, ops):
 # --------------------------------------------------------------------------------------------------
 
 INDEX_HOW = ("init", "from_assembly", "add_scaffold")
-# edits after which the rows the scaffold had before are still its first rows, unchanged
-GROWING = ("add_row", "append_scaffold")
 
 
 def make_row(kind, n, serial):
@@ -334,8 +332,9 @@ def run_reindex(kinds, steps, col, inp):
       ["edit", "insert", i, kind, n] / ["edit", "delete", i] / ["edit", "replace", i, kind, n] (rows[i] = another row) /
       ["edit", "assign", [[kind, n], ...]] (rows = a new list)
       ["scan", k]               every query (scan_queries) on assembly k, each judged against the scan of the rows the
-                                scaffold had when assembly k indexed it.  After growing edits only queries that end within
-                                that scaffold; after any other edit assembly k is not asked any more.
+                                scaffold had when assembly k indexed it.  When the scaffold has grown since (the rows indexed
+                                are still its first rows) only queries that end within the scaffold as indexed; after any
+                                other edit assembly k is not asked any more.
     returns the number of lookups made
     """
     made = {}  # id of every row object made in the session -> (the object, kept alive; its kind; its length)
@@ -381,9 +380,11 @@ def run_reindex(kinds, steps, col, inp):
             elif op == "assign":
                 scf.rows = [row(k, n) for k, n in st[2]]
             for a in assemblies:
-                if op not in GROWING:
+                # grown: the rows this assembly indexed are still the scaffold's first rows, the very objects
+                kept = len(scf.rows) >= len(a[2]) and all(x is y for x, y in zip(scf.rows, a[2]))
+                if not kept:
                     a[5] = "stale"
-                elif a[5] == "fresh":
+                elif a[5] == "fresh" and len(scf.rows) > len(a[2]):
                     a[5] = "grown"
         else:
             k = st[1]
@@ -391,13 +392,18 @@ def run_reindex(kinds, steps, col, inp):
             if state == "stale":
                 continue
             built = (types.SimpleNamespace(rows=rows_k), is_gap, spans, asm)
-            what = f"{ctx}assembly {k} (generation {k} of {len(assemblies)}, indexed when the scaffold had the rows {[list(k) for k in kinds_k]}): "
             before = len(col.failures)
             for a, b in scan_queries(spans, limit=spans[-1][1] if state == "grown" else None):
-                check(kinds_k, a, b, col, inp, built=built, ctx=what)
+                check(kinds_k, a, b, col, inp, built=built, ctx=f"IndexedAssembly no. {k + 1} of {len(assemblies)} made over one Scaffold object: ")
                 lookups += 1
                 if len(col.failures) > before:
-                    return lookups  # one failure per session: the later ones would repeat it
+                    # what is wrong first, then where in the session; one failure per session (later ones would repeat it)
+                    for f in col.failures[before:]:
+                        f["message"] += (
+                            f" (the rows are those the scaffold had when this assembly indexed it"
+                            f"{'; the scaffold has grown since' if state == 'grown' else ''}) - {ctx.rstrip(': ')}"
+                        )
+                    return lookups
     return lookups
 
 
@@ -515,7 +521,13 @@ def run(tier, seed, **opts):
         "of rows, start, end, bait), and looked up again with an equal bait, the same bait object and a bait of another "
         "strand; with a second result of a neighbouring interval alive and edited; around lookups of other intervals; and "
         "seeded sessions of 4-12 steps on scaffolds of 2-9 rows: every lookup judged against the scan, results must be fresh "
-        "objects sharing no row list, editing one result must not change another nor the scaffold; non-trivial = "
+        "objects sharing no row list, editing one result must not change another nor the scaffold; plus re-indexing sessions: "
+        f"ONE Scaffold object (every scaffold of 1..{2 if tier == 'quick' else 3} rows; seeded ones of 1-6 rows up to 10**6 long) indexed in a fresh "
+        "IndexedAssembly (constructor / new_from_assembly / add_scaffold), edited (add_row, append_scaffold with and without "
+        "a gap, rows inserted / dropped / swapped in place, rows assigned anew), indexed again in another fresh IndexedAssembly, "
+        "2-5 generations: after each indexing every query on the new assembly is judged against the scan of the rows the "
+        "scaffold had when handed to it, and earlier assemblies are asked again (queries within their scaffold) while the "
+        "scaffold has only grown; non-trivial = "
         "distinct (rows, a, b) where the query intersects at least one row, or distinct session"
     )
     n_sc = 0
@@ -614,6 +626,28 @@ def run(tier, seed, **opts):
         inp = {"rows": [list(k) for k in kinds], "session": steps}
         run_session(kinds, steps, col, inp, built=built)
         col.case((kinds, repr(steps)))
+    # re-indexing sessions (enumerated): every scaffold of 1..2 rows (thorough: 1..3) x edits x ways of indexing
+    n_reindex = n_reindex_lookups = 0
+    c = 0
+    for n in range(1, (2 if tier == "quick" else 3) + 1):
+        for kinds in itertools.product(ROW_KINDS, repeat=n):
+            c += 1
+            for steps in reindex_scripts(n, c, tier):
+                n_reindex += 1
+                inp = {"rows": [list(k) for k in kinds], "reindex": steps}
+                n_reindex_lookups += run_reindex(kinds, steps, col, inp)
+                col.case((kinds, repr(steps)), sample=inp if n_reindex == 100 else None)
+        if col.full:
+            break
+    # re-indexing sessions (seeded): longer rows, 2-5 generations, any edits
+    n_random_reindex = 40 if tier == "quick" else 3000
+    rng2 = random.Random(seed * 1000003 + 12)  # a generator of their own: the seeded streams above and below stay as they were
+    for _ in range(n_random_reindex):
+        kinds, steps = random_reindex(rng2)
+        n_reindex += 1
+        inp = {"rows": [list(k) for k in kinds], "reindex": steps}
+        n_reindex_lookups += run_reindex(kinds, steps, col, inp)
+        col.case((kinds, repr(steps)))
     exhaustive = True
     if tier != "quick":
         # random larger scaffolds: long rows, many rows, queries sampled at row boundaries +-1
@@ -652,6 +686,7 @@ def run(tier, seed, **opts):
         "boundary/middle query points"
         f"; plus {n_sessions} sessions of 5-8 steps (lookups and edits of earlier results) on the scaffolds of <= {3 if tier == 'quick' else 4} rows "
         f"and {n_random_sessions} seeded sessions on scaffolds of 2-9 rows"
+        f"; plus {n_reindex} re-indexing sessions of 2-5 generations of one Scaffold object ({n_random_reindex} of them seeded), {n_reindex_lookups} lookups"
         + (
             ""
             if tier == "quick"
